@@ -637,6 +637,31 @@ def lockstep_@I@(seed):
         t.join()
     return sinks
 ''', 'lockstep_@I@(@A@ + 10 * @B@)'),
+    ('tb_use', '''
+def tb_deep_@I@(v):
+    if v >= 0:
+        raise HostError("deep", v)
+    return v
+
+
+def tb_mid_@I@(v):
+    return tb_deep_@I@(v) + 1
+
+
+def tb_use_@I@(v):
+    names = []
+    try:
+        tb_mid_@I@(v)
+    except HostError as err:
+        saved = err
+        kept = [saved, "k"]
+        tb = err.__traceback__
+        while tb is not None:
+            names.append(tb.tb_frame.f_code.co_name)
+            tb = tb.tb_next
+        count = len(names)
+    return names, saved.args, saved.__traceback__ is not None
+''', 'tb_use_@I@(@A@)'),
     ('method_exc', '''
 class Acct_@I@:
     def __init__(self, bal):
